@@ -1,5 +1,6 @@
 #include <assert.h>
 #include <ctype.h>
+#include <errno.h>
 #include <limits.h>
 #include <stdbool.h>
 #include <stdint.h>
@@ -716,9 +717,12 @@ primaryexpr(struct scope *s)
 			if (base == 2)
 				src += 2;
 			/* integer constant */
+			errno = 0;
 			e->u.constant.u = strtoull(src, &end, base);
 			if (end == src)
 				error(&tok.loc, "invalid integer constant '%s'", tok.lit);
+			if (errno == ERANGE)
+				error(&tok.loc, "integer constant '%s' is too large", tok.lit);
 			e->type = inttype(e->u.constant.u, base == 10, end);
 		}
 		next();
